@@ -12,6 +12,10 @@ pub(super) struct State {
     /// Count of messages in the channel.
     msg_cnt: usize,
 
+    /// True once the receiver has been dropped. A send then fails and the
+    /// message is returned to the sender: the channel does not hold it.
+    closed: bool,
+
     /// Last access that was a send operation.
     last_send_access: Option<Access>,
     /// Last access that was a receive operation.
@@ -58,6 +62,7 @@ impl Channel {
         super::execution(|execution| {
             let state = execution.objects.insert(State {
                 msg_cnt: 0,
+                closed: false,
                 last_send_access: None,
                 last_recv_access: None,
                 last_try_recv_access: None,
@@ -75,6 +80,12 @@ impl Channel {
         self.state.branch_action(Action::MsgSend, location);
         super::execution(|execution| {
             let state = self.state.get_mut(&mut execution.objects);
+
+            if state.closed {
+                // The receiver is gone: the send fails.
+                return;
+            }
+
             state.msg_cnt = state.msg_cnt.checked_add(1).expect("overflow");
 
             state
@@ -153,6 +164,14 @@ impl Channel {
                     }
                 }
             }
+        })
+    }
+
+    /// The receiver has been dropped (after draining the channel).
+    pub(crate) fn close(&self) {
+        super::execution(|execution| {
+            let state = self.get_state(&mut execution.objects);
+            state.closed = true;
         })
     }
 
